@@ -90,8 +90,14 @@ var formatTypes = map[ast.Format]reflect.Type{
 // If the named file does not exist, BuildTemplate returns an error satisfying
 // errors.Is(err, fs.ErrNotExist).
 //
+// If name is not a valid path, as reported by fs.ValidPath, or is ".",
+// BuildTemplate returns an error satisfying errors.Is(err, fs.ErrInvalid).
+//
 // If a build error occurs, it returns a [*BuildError].
 func BuildTemplate(fsys fs.FS, name string, options *BuildOptions) (*Template, error) {
+	if !fs.ValidPath(name) || name == "." {
+		return nil, &fs.PathError{Op: "open", Path: name, Err: fs.ErrInvalid}
+	}
 	if f, ok := fsys.(FormatFS); ok {
 		fsys = formatFS{f}
 	}
